@@ -89,6 +89,21 @@ def generate(rng, tier):
     ops.append(scen.cmd("verify", "@R", "-dh", "-co", "-h", rng.choice(observe.FORMATS)))
     if rng.random() < 0.5:
         ops.append(scen.cmd("create", "@R", *gen.fmt_args(gen.pick_formats(rng, 1, 3)), "-sf", "@R/" + rng.choice(files)))
+    if rng.random() < 0.4:
+        # a longer history: files join the tree between generations and every generation picks its own formats, so that
+        # one run meets files with different recorded format sets
+        extra = ["0_early.bin", "a_new.mov", "sub/b_new.dat", "zz_late.bin", "m_mid.txt"]
+        rng.shuffle(extra)
+        for g in range(rng.randint(2, 4)):
+            if extra and rng.random() < 0.7:
+                rel = extra.pop()
+                if rel.startswith("sub/") and "sub" not in tree:
+                    ops.append({"op": "mkdir", "path": "sub"})
+                ops.append({"op": "write", "path": rel, "c": gen.unique_content(rng, rng.choice([9, 40, 5000]))})
+            a = gen.fmt_args(gen.pick_formats(rng, 1, 2))
+            if rng.random() < 0.25:
+                a += ["-sf", "@R"]
+            ops.append(scen.cmd("create", "@R", *a))
     lib = []
     for _ in range(rng.randint(2, 4)):
         f = rng.choice(files)
@@ -163,6 +178,9 @@ def execute(sc, ctx):
         pre = set(scen.all_ascmhl_files(w.base))
         res, _ = scen.run_op(w, op)
         ctx.steps += 1
+        if not scen.is_cmd(op):
+            ctx.note("env", op)
+            continue
         argv = op["argv"]
         ctx.note("cmd", argv, res.outcome)
         multi = res.extra.get("short_reads", 0) > 0
@@ -197,7 +215,7 @@ def execute(sc, ctx):
                 return
         elif argv[0] == "hash":
             found = False
-            for line in res.stdout.splitlines():
+            for line in res.stdout.split("\n"):
                 mm = HASH_LINE.match(line)
                 if mm:
                     found = True
@@ -256,7 +274,7 @@ def execute(sc, ctx):
     if any(v["t"] == "l" for v in sc["world"]["tree"].values()):
         ctx.probe("symlinked_file_hashed")
     ctx.sample = {"sizes": {k: len(core.content_bytes(v.get("c"))) for k, v in sc["world"]["tree"].items() if v["t"] == "f"},
-                  "read_profile": profile, "ops": [o["argv"] for o in sc["ops"]][:4], "lib": sc["lib"][:3]}
+                  "read_profile": profile, "ops": [o["argv"] for o in sc["ops"] if scen.is_cmd(o)][:4], "lib": sc["lib"][:3]}
 
 
 def shrink_candidates(sc):
@@ -266,7 +284,7 @@ def shrink_candidates(sc):
         yield dict(sc, lib=lib)
     protected = set()
     for o in sc["ops"]:
-        for a in o["argv"]:
+        for a in o.get("argv", []):
             if isinstance(a, str) and a.startswith("@R/"):
                 protected.add(a[3:])
     for k, f, a in sc["lib"]:
